@@ -226,12 +226,23 @@ def run_api(rec: Recorder, dns_: ScriptedDNS, loop, rng) -> None:
         rkid = uuid.UUID(int=77)
         cache.load_key(b"\x07" * 64, rkid)
         blob = dpapi_ng.ncrypt_protect_secret(b"x", "S-1-5-18", root_key_identifier=rkid, cache=cache)
+        from vf.props import online
+        from vf.ref import cms
+
+        rk = cms.RootKey(b"\x07" * 64, "SHA512")
+        blobs = {
+            "": blob,  # made offline: empty domain name -> bare prefix through the search list
+            "child.verif.test": online.ref_blob(rng, rkid, rk, "S-1-5-18", (361, 1, 2), "nonce", b"x", domain="child.verif.test", forest="verif.test"),
+            "other-tree.example": online.ref_blob(rng, rkid, rk, "S-1-5-18", (361, 1, 2), "nonce", b"x", domain="other-tree.example", forest="verif.test"),
+        }
         for i in range(60):
             recs = [(rng.randrange(3), rng.randrange(3), 389, f"dc{j}.verif.test.") for j in range(rng.randrange(1, 5))]
             dns_.set_records(recs)
             best_p = min(r[0] for r in recs)
             best_w = max(r[1] for r in recs if r[0] == best_p)
             ok_hosts = {r[3].rstrip(".") for r in recs if r[0] == best_p and r[1] == best_w}
+            blob_domain = list(blobs)[i % len(blobs)]
+            blob = blobs[blob_domain]
             for api in ("sync", "async", "sync-protect", "async-protect"):
                 connects.clear()
                 dns_.queries.clear()
@@ -255,7 +266,7 @@ def run_api(rec: Recorder, dns_: ScriptedDNS, loop, rng) -> None:
                 if len(dns_.queries) != 1 or not connects:
                     rec.violation("api-discovery-missing", f"{api}: queries={dns_.queries} connects={connects}", wit)
                     continue
-                want_domain = "" if api in ("sync", "async") else "verif.test"  # blob made offline has an empty domain name
+                want_domain = blob_domain if api in ("sync", "async") else "verif.test"  # unprotect looks up the blob's domain (not its forest)
                 qn = dns_.queries[0][1]
                 exp_q = f"{PREFIX}.{want_domain}" if want_domain else PREFIX
                 if qn != exp_q:
